@@ -743,6 +743,17 @@ def run(ck):
                       "material and its properties, EVERY unit label to EVERY other admissible value in the content's configuration, every metadata entry by type / added / removed / renamed, every data column above and below the "
                       "8-decimal threshold, branch mark, point removed / repeated, cells swapped, extra column added / removed, every model parameter / rmse / range end / name / branch); distinct = distinct (content, route or edit)")
     ck.assumptions += ["md5 and pandas.util.hash_pandas_object are collision-free on the explored contents (uninterpreted H in the theorems)"]
+    _construct_section(ck, pg)          # E17 (new block below)
+
+
+# ---------------------------------------------------------------------------------------------------- E17: NEW BLOCK (begin)
+def _construct_section(ck, pg):
+    """The content <- constructor-arguments map: Spec-driven oracles on the real constructors and the correspondence of
+    `Model/Construct.lean` (driver `Construct`, generated tables `Gen/IsoParams`) with BaseIsotherm / PointIsotherm / ModelIsotherm.
+    Everything lives in harness/pgv/constructlib.py."""
+    from pgv import constructlib
+    constructlib.run_section(ck, pg)
+# ---------------------------------------------------------------------------------------------------- E17: NEW BLOCK (end)
 
 
 def c6short(c):
